@@ -162,6 +162,116 @@ def oracle(kind, info, m):
     return None
 
 
+# ----------------------------------------------------------------------------- objects with a history (round 4)
+HISTORIES = ('second-read-on-one-object', 'restored-from-the-dictionary-of-a-donor', 'dictionary-with-derived-keys',
+             'attributes-planted-before-the-read', 'donor-read-in-between')
+PARAM = 'resources/initialize_singapore.uwg'
+
+
+def write_header_file(work, name, hdr):
+    path = os.path.join(work, name)
+    with open(path, 'w', newline='') as f:
+        w = csv.writer(f, lineterminator='\n')
+        for r in hdr:
+            w.writerow(r)
+        if len(hdr) == 8:
+            w.writerow(['1989', '1', '1', '1', '60'] + ['0'] * 30)
+    return path
+
+
+def impl_header_history(pkg, work, idx, hdr1, hdr2, how):
+    """the real _read_epw on the file with header `hdr2`, called on an object that HAS A HISTORY with another rural
+    file (header `hdr1`): what the header reader hands on must be the file in force, whatever the object (or the
+    dictionary it was restored from) has seen before."""
+    p1 = write_header_file(work, 'hist%05da.epw' % idx, hdr1)
+    p2 = write_header_file(work, 'hist%05db.epw' % idx, hdr2)
+    UWG = pkg.UWG
+    if how == 'second-read-on-one-object':
+        m = UWG(p1)
+        m._read_epw()
+        m.epw_path = p2
+    elif how == 'restored-from-the-dictionary-of-a-donor':
+        donor = UWG.from_param_file(os.path.join(core.REPO, PARAM), epw_path=p1)
+        donor._read_epw()
+        m = UWG.from_dict(donor.to_dict(), epw_path=p2)
+    elif how == 'dictionary-with-derived-keys':
+        donor = UWG.from_param_file(os.path.join(core.REPO, PARAM), epw_path=p1)
+        before = donor.to_dict()
+        donor._read_epw()
+        d = dict(before)
+        for k in ('lat', 'lon', 'gmt', 'nSoil', 'Tsoil', 'depth_soil', 'epw_path'):
+            d[k] = getattr(donor, k, None)
+        d['site'] = [donor.lat, donor.lon, donor.gmt]
+        m = UWG.from_dict(d, epw_path=p2)
+    elif how == 'attributes-planted-before-the-read':
+        donor = UWG(p1)
+        donor._read_epw()
+        m = UWG(p2)
+        for k in ('lat', 'lon', 'gmt', 'nSoil', 'Tsoil', 'depth_soil'):
+            setattr(m, k, getattr(donor, k))
+    else:                                   # donor-read-in-between: another object reads another file first
+        m = UWG(p2)
+        donor = UWG(p1)
+        donor._read_epw()
+    err = None
+    try:
+        m._read_epw()
+    except IndexError:
+        err = 'err index'
+    except ValueError:
+        err = 'err value'
+    site = 'ok %s %s %s' % (frac_str(m.lat), frac_str(m.lon), frac_str(m.gmt))
+    if err:
+        return site, err, None
+    months = [x for row in m.Tsoil for x in row]
+    ground = 'ok %d %s %s' % (m.nSoil, frac_list([d[0] for d in m.depth_soil]), frac_list(months))
+    return site, ground, m
+
+
+def history_cases(chk, pkg, part, n):
+    """[(line, impl answer, class)] + number of oracle failures (reported as violations)"""
+    rng = chk.rng
+    work = chk.work()
+    out, bad = [], 0
+    for idx in range(n):
+        how = HISTORIES[idx % len(HISTORIES)]
+        while True:
+            k1, hdr1, _ = gen_case(rng)
+            if k1 not in ('short-loc', 'bad-loc', 'few-rows', 'bad-cell', 'short-record', 'bad-count', 'count-more'):
+                break
+        while True:
+            k2, hdr2, info2 = gen_case(rng)
+            if k2 not in ('short-loc', 'bad-loc', 'few-rows'):
+                break
+        site, ground, m = impl_header_history(pkg, work, idx, hdr1, hdr2, how)
+        if part == 'site':
+            out.append(('site hdr=' + enc_rows(hdr2), site, 'history:' + how))
+            want = tuple(fracexec.TOFRAC_(hdr2[0][j].replace('_', '')) for j in (6, 7, 8))
+            got = None if m is None and not site.startswith('ok') else site
+            exp = 'ok %s %s %s' % tuple(frac_str(x) for x in want)
+            if site != exp:
+                bad += 1
+                if bad <= 2:
+                    chk.violation('impl-violation', 'the site handed on by the header reader is not the LOCATION line of the '
+                                  'rural file in force (%s)' % how,
+                                  case={'history': how, 'LOCATION line of the file read earlier / by the donor': hdr1[0],
+                                        'LOCATION line of the file in force': hdr2[0]},
+                                  observed=site, expected=exp)
+        else:
+            out.append(('ground hdr=' + enc_rows(hdr2), ground, 'history:' + how))
+            if k2 in ('ok', 'props-filled'):
+                msg = oracle(k2, info2, m) if m is not None else 'well-formed ground line refused (%s)' % ground
+                if msg:
+                    bad += 1
+                    if bad <= 2:
+                        chk.violation('impl-violation', 'ground-temperature line of the file in force not read as laid out '
+                                      '(object with a history: %s)' % how,
+                                      case={'history': how, 'ground line of the earlier file': hdr1[3],
+                                            'ground line of the file in force': hdr2[3]}, observed=msg,
+                                      expected='count, depths and monthly values of the file in force')
+    return out, bad
+
+
 def run_header(chk, part, n_quick=400, n_thorough=4000):
     """part = 'site' (C12: LOCATION cells 6..8) or 'ground' (C20: the ground-temperature line)"""
     pkg = fracexec.load()
@@ -192,6 +302,19 @@ def run_header(chk, part, n_quick=400, n_thorough=4000):
                                   'ground-temperature line not read as the EPW data dictionary lays it out',
                                   case={'header_rows': hdr, 'kind': kind}, observed=msg,
                                   expected='record i: depth at cell 2+16i, months at cells 6+16i..17+16i, + 273.15')
+    hist, hbad = history_cases(chk, pkg, part, 40 if chk.tier == 'quick' else 400)
+    for line, ans, c in hist:
+        cls[line] = c
+    chk.direct('header-reader-on-objects-with-a-history(%s)' % part, len(hist), len(hist),
+               'the REAL _read_epw (exact rationals) called on an object that has a history with ANOTHER rural file: a '
+               'second read on one object after epw_path changed; an object restored with from_dict from to_dict() of a '
+               'donor that had read the other file; a dictionary carrying keys named like the derived attributes (lat, '
+               'lon, gmt, nSoil, Tsoil, depth_soil, site, epw_path) of such a donor; those attributes planted on the '
+               'object before the read; another object reading the other file in between. Oracle: %s are those of the '
+               'file in force; the same cases also run through the exact tie below'
+               % ('latitude, longitude, time zone' if part == 'site' else 'count, depths and monthly ground temperatures'),
+               mismatches=hbad, branches={c: sum(1 for x in hist if x[2] == c) for c in sorted(set(x[2] for x in hist))})
+    cases += [(line, ans) for line, ans, _ in hist]
     if part == 'site':
         chk.correspond('UWG._read_epw(site)~readSite', 'EpwHeader', cases,
                        rule='the REAL _read_epw (exact rationals) on written files with generated header rows vs Lean '
